@@ -349,6 +349,26 @@ class SBool:
 
     __hash__ = None
 
+    def __lt__(self, o):
+        if isinstance(o, (bool, int, SBool, SInt)):
+            return mk_bool(zi(self) < zi(o))
+        return NotImplemented
+
+    def __le__(self, o):
+        if isinstance(o, (bool, int, SBool, SInt)):
+            return mk_bool(zi(self) <= zi(o))
+        return NotImplemented
+
+    def __gt__(self, o):
+        if isinstance(o, (bool, int, SBool, SInt)):
+            return mk_bool(zi(self) > zi(o))
+        return NotImplemented
+
+    def __ge__(self, o):
+        if isinstance(o, (bool, int, SBool, SInt)):
+            return mk_bool(zi(self) >= zi(o))
+        return NotImplemented
+
     def __index__(self):
         return 1 if bool(self) else 0
 
